@@ -41,11 +41,11 @@ static const char *const kind_ext[NKINDS] = {
 
 enum { M_NONE, M_TOKDEL, M_TOKDUP, M_TOKSWAP, M_NUMPERTURB, M_KWREORDER,
        M_LINEDEL, M_LINEDUP, M_TRUNCATE, M_YAMLKIND, M_RANDBYTES, M_INSERT,
-       M_SPLICE, M_KWREPEAT, M_YAMLALIAS, M_TOKLEN, M_FREQEQ, M_KWRESTATE, NMUT };
+       M_SPLICE, M_KWREPEAT, M_YAMLALIAS, M_TOKLEN, M_FREQEQ, M_KWRESTATE, M_VERCROSS, NMUT };
 static const char *const mut_name[NMUT] = {
     "none", "tokDel", "tokDup", "tokSwap", "numPerturb", "kwReorder",
     "lineDel", "lineDup", "truncate", "yamlKind", "randBytes", "insert",
-    "splice", "kwRepeat", "yamlAlias", "tokLen", "freqEq", "kwRestate"
+    "splice", "kwRepeat", "yamlAlias", "tokLen", "freqEq", "kwRestate", "verCross"
 };
 
 /* ------------------------------------------------------------------ seeds */
@@ -332,6 +332,53 @@ static void seed_vnacal(int variant)
     vnacal_free(vcp);
 }
 
+/* a pre-release "#VNACAL 2.0" file (sets / e = rows x columns matrix of
+ * [el, er, em] triples) with synthetic numbers */
+static void seed_legacy_v2(int rows, int cols, int nf)
+{
+    char buf[8192];
+    size_t n = 0;
+
+    n += (size_t)snprintf(buf + n, sizeof(buf) - n,
+	    "#VNACAL 2.0\n%%YAML 1.1\n---\nsets:\n- name: old%dx%d\n"
+	    "  rows: %d\n  columns: %d\n  frequencies: %d\n"
+	    "  z0: +5.000000e+01 +0.000000e+00j\n  data:\n", rows, cols, rows,
+	    cols, nf);
+    for (int f = 0; f < nf; ++f) {
+	n += (size_t)snprintf(buf + n, sizeof(buf) - n,
+		"  - f: %d.00000e+06\n    e:\n", f + 1);
+	for (int r = 0; r < rows; ++r) {
+	    for (int c = 0; c < cols; ++c) {
+		n += (size_t)snprintf(buf + n, sizeof(buf) - n,
+			"    %s - - +%d.5e-02 -%d.0e-03j\n"
+			"        - +9.%de-01 +%d.0e-02j\n"
+			"        - -%d.0e-02 +%d.5e-03j\n", c == 0 ? "-" : " ",
+			r + 1, c + 1, f + 1, r + 1, c + 2, f + 1);
+	    }
+	}
+    }
+    n += (size_t)snprintf(buf + n, sizeof(buf) - n, "...\n");
+    add_seed(K_VNACAL, buf, n);
+}
+
+/* a copy of an existing .vnacal seed under another first line */
+static void seed_reheaded(int from, const char *header)
+{
+    const buf_t *b = &seeds[K_VNACAL][from];
+    const char *nl = memchr(b->p, '\n', b->n);
+    char *buf;
+    size_t hl = strlen(header), rest;
+
+    if (nl == NULL)
+	return;
+    rest = b->n - (size_t)(nl - b->p);
+    buf = malloc(hl + rest + 1);
+    memcpy(buf, header, hl);
+    memcpy(buf + hl, nl, rest);
+    add_seed(K_VNACAL, buf, hl + rest);
+    free(buf);
+}
+
 static void seed_yaml(int variant)
 {
     vt_rng_t rng;
@@ -469,6 +516,13 @@ static void make_seeds(void)
 	    free(d);
 	}
     }
+    /* more legacy material: old-format files of several dimensions and
+     * current-format files under the pre-release "3.x" first line */
+    seed_legacy_v2(1, 1, 2);
+    seed_legacy_v2(2, 2, 1);
+    seed_legacy_v2(3, 2, 2);
+    seed_reheaded(1, "#VNACAL 3.0");
+    seed_reheaded(2, "#VNACAL 3.1");
     for (int i = 0; i < 6; ++i)
 	seed_yaml(i);
     for (int k = 0; k < NKINDS; ++k) {
@@ -640,6 +694,8 @@ int main(int argc, char **argv)
 	    mut = M_TOKLEN;
 	if (mut == M_KWRESTATE && IS_YAMLTEXT(kind))
 	    mut = M_YAMLALIAS;
+	if (mut == M_VERCROSS && kind != K_VNACAL)
+	    mut = IS_YAMLTEXT(kind) ? M_YAMLKIND : M_KWRESTATE;
 	lf_mutate(kind, mut, seedno, &rng, &in);
 	fprintf(stderr, "kind %s mut %s seed %d len %ld\n", kind_name[kind],
 		mut_name[mut], seedno, (long)in.n);
@@ -668,6 +724,8 @@ int main(int argc, char **argv)
 		mut = M_TOKLEN;
 	    if (mut == M_KWRESTATE && IS_YAMLTEXT(kind))
 		mut = M_YAMLALIAS;
+	    if (mut == M_VERCROSS && kind != K_VNACAL)
+	        mut = IS_YAMLTEXT(kind) ? M_YAMLKIND : M_KWRESTATE;
 	    lf_mutate(kind, mut, seedno, &rng, &in);
 	    snprintf(cid, sizeof(cid), "fuzz:%llu:%ld",
 		    (unsigned long long)seed, c);
